@@ -443,6 +443,23 @@ def _(n, T):
             F(n + "c", "int", [P("k", "val", "int"), P("fn", "fnptr")])]
 
 
+# result types of the wrapped function and of the callback differ (callbacks.rst: the abstract interface describes the callback)
+@shape("callback_result_types", langs=("c", "c++"), wraps=("c", "fortran"), doc="callbacks.rst: callbacks returning long / double / int in functions returning double / int")
+def _(n, T):
+    return [F(n + "e", "double", [P("x", "val", "double"), P("fn", "fnptr", sig="l2")])]
+
+
+@shape("callback_two", langs=("c", "c++"), wraps=("c", "fortran"), doc="callbacks.rst: two callbacks with different result types in one function")
+def _(n, T):
+    return [F(n + "f", "int", [P("fn", "fnptr", sig="d"), P("gn", "fnptr", sig="i")])]
+
+
+@shape("callback_void_fn", langs=("c", "c++"), wraps=("c", "fortran"), doc="callbacks.rst: a void function taking a callback that returns a value")
+def _(n, T):
+    return [F(n + "d", "void", [P("k", "val", "int"), P("fn", "fnptr", sig="d")]),
+            F(n + "g", "void", [P("fn", "fnptr", sig="i")])]
+
+
 @shape("char_scalar", langs=("c", "c++"), wraps=("c", "fortran"), doc="clibrary.yaml / strings.yaml passChar, returnChar")
 def _(n, T):
     return [F(n + "r", "char", [P("a", "val", "int")]),
